@@ -17,7 +17,7 @@
    for ALL urls (they are decided per graph instead). *)
 From Coq Require Import List String Bool.
 From Spec Require Import Base.Json Base.Url Codec.Types Codec.Gen_Tables Codec.Codec Codec.CodecFacts
-  Expand.Expand Expand.ExpandFacts Expand.ExpandSim Expand.ExpandSimCheck.
+  Expand.Expand Expand.ExpandFacts Expand.ExpandSim Expand.ExpandSimCheck Expand.ExpandCycle Expand.ExpandExample.
 Import ListNotations.
 Local Open Scope string_scope.
 
@@ -83,26 +83,9 @@ Theorem C02_checked_graph : forall E docs cwd OP ctx_base rid nodes live,
 Proof. exact checked_graph_sim. Qed.
 Print Assumptions C02_checked_graph.
 
-(* ---------- the premises are satisfiable: two documents in different directories, a self cycle, a cycle across the
-   documents, a back reference into the root by relative URL, a pointer token that needs ~0 ---------- *)
-Definition pj (s : string) : json := match parse_json s with Some j => j | None => JNull end.
-Definition nf (k : string) (j : json) : json := match norm gen_env false j (TNamed k) with ROk v => v | _ => JNull end.
-Definition ex_root_url := "file:///r/root.json".
-Definition ex_other_url := "file:///r/sub/o.json".
-Definition ex_root : json := Eval vm_compute in nf "Swagger" (pj
- "{""swagger"":""2.0"",""info"":{""title"":""t"",""version"":""1""},""paths"":{},""definitions"":{
-   ""a"":{""type"":""object"",""properties"":{""next"":{""$ref"":""#/definitions/a""},""o"":{""$ref"":""sub/o.json#/definitions/b""}}},
-   ""e~f"":{""type"":""string""}}}").
-Definition ex_other : json := Eval vm_compute in nf "Swagger" (pj
- "{""swagger"":""2.0"",""info"":{""title"":""o"",""version"":""1""},""paths"":{},""definitions"":{
-   ""b"":{""type"":""array"",""items"":{""$ref"":""#/definitions/c""}},
-   ""c"":{""allOf"":[{""$ref"":""../root.json#/definitions/a""},{""$ref"":""../root.json#/definitions/e~0f""},{""type"":""string""}]}}}").
-Definition ex_docs := [(ex_root_url, ex_root); (ex_other_url, ex_other)].
-Definition ex_start : json := match ptr_get ["definitions"; "a"] ex_root with Some j => j | None => JNull end.
-Definition ex_nodes := Eval vm_compute in collect gen_env ex_docs "/" 200 [(ex_root_url, ex_start)] [].
-Definition ex_live := Some (ex_root_url, ex_root).
-Definition ex_s0 := mkSt [] [] [] "" false.
-
+(* ---------- the premises are satisfiable (the graph is in Expand/ExpandExample.v): two documents in different
+   directories, a self cycle, a cycle across the documents, a back reference into the root by relative URL, a pointer
+   token that needs ~0 ---------- *)
 Example C02_example_premises : forall abs,
   let OP := mkOpts false false abs in
   List.length ex_nodes = 11
